@@ -664,3 +664,35 @@ def rule_kind_exact_compared(ctx, rep):
                 rep.check(eq_side & dim_labels == {label} and label not in ne_side, rule, f"{field} {opsym} {cname} ({pos})", where,
                           {"equal-side": sorted(eq_side), "other-side": sorted(ne_side)}, f"equal side has exactly {label} of its dimension; other side lacks it",
                           why="a direct check on the compared value must exclude exactly that value")
+
+
+def rule_totality(ctx, rep):
+    """no comparison table raises on operands a valid program can produce"""
+    rule = "T-TOTAL"
+    rep.rule(rule, "no analysis' comparison table raises for any operator x comparand kind a valid program can contain (named constants of any "
+                   "domain, numbers outside the named range, byte/address literals, other fields, unknown operands)")
+    an = _find_analyses(ctx)
+    rep.require(len(an) == 4, f"expected 4 analyses, found {sorted(an)}")
+    b = _builder(ctx)
+    fields = {"int_fields": [("GroupSize", "global GroupSize"), ("GroupIndex", "txn GroupIndex")], "fee_field": [("Fee", "txn Fee")],
+              "addr_fields": [("RekeyTo", "txn RekeyTo"), ("Sender", "txn Sender")],
+              "txn_types": [("TransactionType", "txn TypeEnum"), ("TransactionType", "txn OnCompletion"), ("TransactionType", "txn ApplicationID")]}
+    comparands = ["int 0", "int 7", "int 255", "int 18446744073709551615", "int pay", "int appl", "int NoOp", "int DeleteApplication", "int unknown",
+                  "pushint 6", "byte 0x00", f"addr {LIT}", "global ZeroAddress", "txn Amount", "load 0", "gtxn 1 TypeEnum", "int 1", None]
+    n = 0
+    for modname, cls in an.items():
+        me = Obj(cls)
+        where = _analysis_where(ctx, cls.mod.name, cls.name)
+        for (key, line), comp, opsym, pos in itertools.product(fields[modname], comparands, ("==", "!=", "<", ">=", "&&", "+"), "LR"):
+            if comp is None and pos == "L":
+                continue
+            try:
+                v = cond(ctx, line, opsym, pos, comp)
+            except Exception as e:   # the comparand itself is not parseable TEAL: not a valid program
+                continue
+            got = _call(ctx, me, "_get_asserted_single", key, v)
+            n += 1
+            rep.check(not (isinstance(got, tuple) and got and got[0] == "RAISES"), rule, f"{cls.name}: {line} {opsym} {comp} ({pos})", where, got, "a pair of value sets",
+                      why="the analysis fails with an internal error on a comparison a valid program can contain")
+    rep.count("totality rows", n)
+    rep.require(n >= 1000, f"only {n} totality rows")
